@@ -325,7 +325,13 @@ class Engine(ExprMixin, CallMixin, StmtMixin):
             self.entry_measure = self.tuple_items(self.spec(c.decreases, st, want_bool=False))
         self.entry_state = st
         body = strip_docstring(node.body)
-        has_lru = any("lru_cache" in ast.unparse(d) for d in node.decorator_list)
+        decos = [ast.unparse(d).replace(" ", "") for d in node.decorator_list]
+        has_lru = any("lru_cache" in d or d in ("cache", "functools.cache") for d in decos)
+        for d in decos:
+            if "lru_cache" in d and not d.endswith("lru_cache(maxsize=None)") and not d.endswith("lru_cache(None)"):
+                # a bounded cache (bare @lru_cache means maxsize=128) can evict an entry and run the body again:
+                # "at most once per argument" (the memo semantics used here) would be unsound
+                raise Unsupported(f"{c.key}: {d}: only an unbounded cache (maxsize=None) has memo semantics", node)
         outcomes = []
         if c.memo:
             arg = st.env[list(c.params.keys())[0]]
